@@ -548,3 +548,6 @@ def run_shard(spec):
 def replay(doc):
     instr.install(["windpyutils.structures.caches", "windpyutils.structures.lists"])
     return seq.std_replay(__import__(MOD, fromlist=["x"]), doc)
+
+
+RULE += ' Also (wave 9): shallow copies of the cache with one of the two handles dropped and collected; every fourth shard with DEBUG logging.'
